@@ -63,20 +63,29 @@ def walk_invariant(ctx, hts, history):
     ctx.count("invariant-walks")
     bad = []
 
-    def rec(node, path):
+    # iterative post-order walk (a key may be longer than the interpreter's recursion limit)
+    below_of = {}
+    stack = [(root, (), False)]
+    while stack:
+        node, path, done = stack.pop()
+        ch = node.children
+        if not done:
+            stack.append((node, path, True))
+            if ch is not None:
+                for tok, c in ch.items():
+                    stack.append((c, path + (tok,) if len(path) < 64 else path, False))
+            continue
         below = 0
-        if node.children is not None:
+        if ch is not None:
             if node.value is not NULL:
                 bad.append(("valued-node-has-children", path))
-            for tok, ch in node.children.items():
-                below += rec(ch, path + (tok,))
-                if ch.value is not NULL:
+            for tok, c in ch.items():
+                below += below_of.pop(id(c))
+                if c.value is not NULL:
                     below += 1
         if node.counter != below:
             bad.append(("counter", path, node.counter, below))
-        return below
-
-    rec(root, ())
+        below_of[id(node)] = below
     if bad:
         ctx.viol("C09:invariant-" + bad[0][0], {"adds": history}, {"nodes": bad[:3]})
 
